@@ -231,6 +231,15 @@ static void l_apply(int op, int check)
                 for (i = 0; i < b->nowned; ++i) {
                     AllocRec *rc = arena_rec(b->owned[i]);
                     freed_owned += rc->freed && !rc->live;
+                    if (rc->live && g_mode == 17) {
+                        /* cleanup kept the block: the key-dependent state in it must be gone all the same */
+                        size_t k; int nz = 0;
+                        for (k = 0; k < rc->size; ++k) nz += rc->ptr[k] != 0;
+                        ++g_cnt.evaluations;
+                        if (nz > 8)
+                            l_report("not-erased", op, "cleanup neither erased nor released a block of %zu bytes: %d non-zero bytes are still in it (%d in the object's blocks before cleanup)",
+                                     rc->size, nz, nonzero_before);
+                    }
                     if (rc->freed && g_mode == 17) {
                         ++g_cnt.evaluations;
                         if (nonzero_before > 8) distinct_add_u64(fnv1a(mc_casedesc(), strlen(mc_casedesc()), 17));
